@@ -1,0 +1,8 @@
+//! Verification hooks: public views of crate-private items. Compiled only with
+//! the `verif` feature; nothing here is used by the library itself.
+
+use crate::rules::time::TimeSelector;
+
+pub fn time_selector_is_00_24(selector: &TimeSelector) -> bool {
+    selector.is_00_24()
+}
